@@ -287,6 +287,9 @@ impl Monitor for OnchainMonitor {
 			}
 			// attacker-paid fees of its second-stage transactions are burnt, not the victim's loss
 			let attacker_fees: u64 = tree.iter().skip(1).filter(|x| close.attacker_txids.contains(x)).filter_map(|x| txs.get(x)).map(|tx| Self::fee_of(w, tx).unwrap_or(0)).sum();
+			// (so are the fees of what the cheating node's own monitor broadcast on top of its revoked commitment,
+			// e.g. an HTLC claim with a preimage it learned after the close)
+			let attacker_fees = attacker_fees + fees.get(&bc).cloned().unwrap_or(0);
 			if victim + anchors + attacker_fees + cheater_owned < t_out {
 				v.violation("C06", "J2-full-punishment", "value of the revoked commitment is unaccounted for", format!("chan {}: commitment outputs {} sat, victim {} (incl. its fees), anchors {}, attacker fees {}", close.chan, t_out, victim, anchors, attacker_fees));
 			}
@@ -302,6 +305,12 @@ impl Monitor for OnchainMonitor {
 		};
 		if owner != bc {
 			v.rep.count("onchain_commitment_confirmed_of_the_other_party");
+		}
+		// was it, for the party that did not broadcast it, the previous (unrevoked) counterparty commitment?
+		if let Some((signer, num)) = w.cp_commit_numbers.get(&t_txid) {
+			if w.cp_commit_numbers.values().any(|(s2, n2)| s2 == signer && n2 < num) {
+				v.rep.count("c07_u4_closes_by_a_previous_unrevoked_counterparty_commitment");
+			}
 		}
 		let (bc, other) = (owner, ch.peer_of(owner));
 		let dust = ch.model.as_ref().map(|m| m.p.dust[ch.party(bc)]).unwrap_or(354);
@@ -323,9 +332,20 @@ impl Monitor for OnchainMonitor {
 				v.rep.count("c07_u4_htlc_outputs_not_worth_their_fee");
 				continue;
 			}
+			// (with a fee-sensitive miner a claim may legitimately miss its deadline when the fee level rises
+			// during the last ten blocks before it: nothing re-issued then is sure to be mined in time)
+			let late_rise = w.fee_market_used && w.fee_rises.iter().any(|r| *r + 10 >= h.cltv && *r <= h.cltv);
+			if late_rise && known_at.is_some() {
+				v.rep.count("c07_u4_htlc_outputs_with_a_fee_rise_near_the_expiry");
+			}
 			match known_at {
 				None => *ent.entry(offerer).or_default() += h.amount_msat / 1000,
-				Some(kh) if kh.max(close_h) + 40 <= h.cltv => *ent.entry(claimant).or_default() += h.amount_msat / 1000,
+				Some(kh) if kh.max(close_h) + 40 <= h.cltv && !late_rise => {
+					if kh > close_h {
+						v.rep.count("c07_u4_htlc_outputs_claimable_by_a_preimage_learned_after_the_close");
+					}
+					*ent.entry(claimant).or_default() += h.amount_msat / 1000
+				},
 				Some(_) => v.rep.count("c07_u4_htlc_outputs_either_way"),
 			}
 		}
